@@ -282,6 +282,8 @@ def run(ctx):
         rep.case('probe:rename-collide', case, nontrivial='ok' in real)
         for sig, detail in oracle('rename_fields', a, desc, rows, real):
             rep.fail(sig, case, detail)
+    from .. import pycorr
+    pycorr.run(ctx)
     return ctx.finish(probe=probe, search=P.search_from_disagreements(ctx, oracle, LAYER_A))
 
 
